@@ -170,6 +170,11 @@ func (ev *Ev) call(name string, args []interface{}) (interface{}, error) {
 		s := 0.0
 		for _, e := range items {
 			s += e.(float64)
+			if math.IsInf(s, 0) || math.IsNaN(s) {
+				// JSON has no such number and the specification does not say what happens
+				ev.amb("arithmetic overflow: the sum leaves the range of JSON numbers")
+				break
+			}
 		}
 		if name == "avg" {
 			return s / float64(len(items)), nil
